@@ -1,6 +1,7 @@
 (** C12 — arithmetic totality and index arithmetic (proofs). *)
-From GV Require Import Lex.Arith.
-From Coq Require Import Lia ZArith.
+From GV Require Import Lex.Arith Base.BitsFacts.
+From Coq Require Import Lia ZArith List.
+Import ListNotations.
 Open Scope Z_scope.
 
 Lemma arith_never_panics_l : forall op a b, arith op a b <> APanic.
@@ -150,4 +151,32 @@ Proof.
   assert (Ha : 0 <= a) by (unfold a; destruct st; [apply Hw|lia]).
   assert (Hb : b <= len) by (unfold b; lia).
   destruct (a <=? b) eqn:E; cbn [fst snd]; [apply Z.leb_le in E; lia|lia].
+Qed.
+
+(** ** the integer SUM aggregate *)
+Lemma in_i64b_true : forall r, in_i64 r -> in_i64b r = true.
+Proof. intros r H. apply in_i64b_spec. exact H. Qed.
+Lemma sum_int_refuted_l : sum_int Checked 0 [i64_max; 1] = Panic /\ sum_int Checked 0 [i64_max; i64_max] = Panic /\
+  sum_int Checked 0 [i64_min; -1] = Panic /\ sum_int Checked 0 [i64_max; 1; -5] = Panic.
+Proof. repeat split. Qed.
+Lemma sum_int_wrapping_total_l : forall vs acc, sum_int Wrapping acc vs <> Panic.
+Proof. induction vs as [|v r IH]; intro acc; cbn [sum_int add_i64 rbind]; [discriminate|apply IH]. Qed.
+Lemma sum_int_exact_l : forall m vs acc, prefixes_fit acc vs -> sum_int m acc vs = Ok (acc + zsum vs).
+Proof.
+  intros m vs. induction vs as [|v r IH]; intros acc H; cbn [sum_int zsum].
+  - f_equal. lia.
+  - destruct H as [Hv Hr]. unfold add_i64. destruct m.
+    + rewrite (in_i64b_true _ Hv). cbn [rbind]. rewrite IH by assumption. f_equal. lia.
+    + rewrite (sint64_small _ Hv). cbn [rbind]. rewrite IH by assumption. f_equal. lia.
+Qed.
+(** in the checked build the sum panics exactly when some partial sum does not fit *)
+Lemma sum_int_checked_panics_iff_l : forall vs acc, sum_int Checked acc vs = Panic <-> ~ prefixes_fit acc vs.
+Proof.
+  induction vs as [|v r IH]; intro acc; cbn [sum_int prefixes_fit add_i64 rbind].
+  - split; [discriminate|tauto].
+  - destruct (in_i64b (acc + v)) eqn:E; cbn [rbind].
+    + rewrite IH. assert (in_i64 (acc + v)).
+      { unfold in_i64b in E. apply andb_prop in E as [H1 H2]. apply Z.leb_le in H1. apply Z.ltb_lt in H2. split; assumption. }
+      tauto.
+    + split; [|reflexivity]. intros _ [H _]. rewrite (in_i64b_true _ H) in E. discriminate.
 Qed.
